@@ -2,6 +2,13 @@
 
 One case = (key material, how the object was obtained, passphrase used for writing, a wrong
 passphrase, entry points for writing/loading, state of the target path, process umask, another key).
+Key material is bundled files plus CONSTRUCTED keys with structurally special encodings: ECDSA private scalars
+whose public point has a coordinate with 1-2 leading zero bytes (vlib.keymat.ec_special_scalars, every curve; also
+the smallest and largest scalars), random scalars, and 1024-1216 bit RSA keys generated at the start of every run
+and selected so that the DER body length is / is not a multiple of the 16 and 8 byte cipher blocks (the body of a
+passphrase-protected file then ends in a full / partial padding block). Constructed keys are obtained as
+`cryptography` object, from PEM and OpenSSH-format text written by `cryptography`, and from traditional
+encrypted PEM text written by the independent vlib.keymat.legacy_pem_encrypt under each cipher paramiko reads.
 Oracle (every clause of the statement):
  a. public round trip: Class(data=k.asbytes()), Class(msg=...), PKey.from_type_string(...) are equal to k and
     hash-equal; asbytes / name / bits / fingerprints / base64 equal the independent encoding
@@ -26,17 +33,22 @@ import stat
 from hypothesis import strategies as st
 
 from vlib import core
+from vlib import keymat as KM
 from vlib import keys as K
 
 PROPERTY = "C36"
 LEVEL = "exploration"
 RULE = (
     "hypothesis draws key material (27 bundled private key files of RSA 1024/2048, ECDSA P-256/384/521 and Ed25519, "
-    "plain and passphrase-protected, PEM and OpenSSH container; fresh ECDSA scalars; in thorough also freshly generated "
-    "RSA 1024-4096), object provenance (file, file object, cryptography object, +certificate), a writing passphrase "
+    "plain and passphrase-protected, PEM and OpenSSH container; ECDSA scalars: random, and constructed ones whose public "
+    "x or y has 1-2 leading zero bytes / smallest / largest, every curve; RSA 1024-1216 generated in every run and selected "
+    "by DER length mod 16 and mod 8 (full vs partial final padding block); in thorough also RSAKey.generate 1024-4096), "
+    "object provenance (file, file object, cryptography object, +certificate; constructed keys: PEM text, OpenSSH-format "
+    "text, traditional encrypted PEM under AES-128-CBC/AES-256-CBC/DES-EDE3-CBC from an independent writer), a writing passphrase "
     "(none, ascii, unicode incl. astral, long, whitespace, empty), a wrong passphrase (none, empty, prefix, case-changed, "
     "other, bytes form), target path new or pre-existing (0644/0600/0666, longer content), umask 0/0o022/0o077 and a "
-    "second key for the inequality clause; non-trivial = passphrase-protected or certificate-bearing or umask != 0o077; "
+    "second key for the inequality clause; non-trivial = passphrase-protected (written or obtained from encrypted text) or "
+    "certificate-bearing or umask != 0o077; "
     "distinct by SHA-1 of the case"
 )
 CERTS = {"t:rsa": "rsa.key-cert.pub", "t:ed25519": "ed25519.key-cert.pub", "t:ecdsa-256": "ecdsa-256.key-cert.pub"}
@@ -75,15 +87,48 @@ def ref_public(keyid):
     return K.RefPub.from_crypto(ref_private(keyid).public_key())
 
 
+ENC_PROV_PASS = "prov pass\u00e9"  # passphrase of the encrypted text provenances
+ENC_PROVS = ["pem-enc:" + c for c in sorted(KM.LEGACY_PEM_CIPHERS)]
+
+
 def provs_for(keyid):
     out = []
     if isinstance(keyid, str):
         out += ["file", "fileobj"]
         if keyid in CERTS:
             out += ["file+cert"]
+    else:
+        out += ["pem-text", "openssh-text"] + ENC_PROVS
     if key_class(keyid) != "Ed25519Key":
         out.append("object")
     return out
+
+
+def der_body(keyid):
+    """Traditional (PKCS#1 / SEC1) DER body of the private key: what a PEM writer encrypts."""
+    k = ("der", _kid(keyid))
+    if k not in _cache:
+        from cryptography.hazmat.primitives import serialization as S
+
+        _cache[k] = ref_private(keyid).private_bytes(S.Encoding.DER, S.PrivateFormat.TraditionalOpenSSL, S.NoEncryption())
+    return _cache[k]
+
+
+def prov_text(keyid, prov):
+    """Private key file text of a constructed key, written without paramiko."""
+    from cryptography.hazmat.primitives import serialization as S
+
+    priv = ref_private(keyid)
+    if prov == "pem-text":
+        if keyid[0] == "rsapem":
+            return keyid[1]
+        return priv.private_bytes(S.Encoding.PEM, S.PrivateFormat.TraditionalOpenSSL, S.NoEncryption()).decode()
+    if prov == "openssh-text":
+        return priv.private_bytes(S.Encoding.PEM, S.PrivateFormat.OpenSSH, S.NoEncryption()).decode()
+    cipher = prov.split(":", 1)[1]
+    der = der_body(keyid)
+    iv = hashlib.sha256(der + cipher.encode()).digest()[: KM.LEGACY_PEM_CIPHERS[cipher][1]]  # deterministic
+    return KM.legacy_pem_encrypt(der, "RSA" if key_class(keyid) == "RSAKey" else "EC", cipher, ENC_PROV_PASS, iv)
 
 
 def get_obj(keyid, prov):
@@ -104,6 +149,10 @@ def get_obj(keyid, prov):
     elif prov == "object":
         priv = ref_private(keyid)
         obj = cls(key=priv) if cls is paramiko.RSAKey else cls(vals=(priv, priv.public_key()))
+    elif prov in ("pem-text", "openssh-text"):
+        obj = cls.from_private_key(io.StringIO(prov_text(keyid, prov)), None)
+    elif prov in ENC_PROVS:
+        obj = cls.from_private_key(io.StringIO(prov_text(keyid, prov)), ENC_PROV_PASS)
     else:
         raise AssertionError(prov)
     _cache[k] = obj
@@ -120,7 +169,33 @@ def _by_class():
     return out
 
 
-_extra_keys = []  # thorough: freshly generated RSA keys ["rsapem", text]
+_extra_keys = []  # RSA keys generated in this run: ["rsapem", text] (see fresh_rsa_pool; thorough adds RSAKey.generate)
+
+
+def fresh_rsa_pool(ctx):
+    """Small RSA keys generated now (every run, both tiers) and SELECTED by the length of their DER body modulo
+    the cipher block sizes: at least one whose body is a whole number of 16-byte blocks (its encrypted form ends
+    in a full padding block), one that is a multiple of 8 only, one that is neither. Modulus sizes cycle so the
+    lengths really vary (a 1024-bit key is 607-611 bytes)."""
+    from cryptography.hazmat.primitives import serialization as S
+    from cryptography.hazmat.primitives.asymmetric import rsa
+
+    have = {}
+    sizes = [1024, 1024, 1024, 1088, 1152, 1216]
+    for i in range(60):
+        priv = rsa.generate_private_key(65537, sizes[i % len(sizes)])
+        der = priv.private_bytes(S.Encoding.DER, S.PrivateFormat.TraditionalOpenSSL, S.NoEncryption())
+        shape = "mod16=0" if len(der) % 16 == 0 else ("mod8=0" if len(der) % 8 == 0 else "partial")
+        if len(have.setdefault(shape, [])) < 2:
+            text = priv.private_bytes(S.Encoding.PEM, S.PrivateFormat.TraditionalOpenSSL, S.NoEncryption()).decode()
+            have[shape].append(["rsapem", text])
+        if len(have) == 3 and all(len(v) == 2 for v in have.values()):
+            break
+    for shape in sorted(have):
+        _extra_keys.extend(have[shape])
+        ctx.count("generated-rsa-der-%s" % shape, len(have[shape]))
+    if "mod16=0" not in have or "partial" not in have:
+        ctx.inconc("fresh-rsa-pool-lacks-a-der-length-class")
 
 
 @st.composite
@@ -131,9 +206,31 @@ def keyids(draw):
     if cls == "ECDSAKey" and kind == 0:
         curve = draw(st.sampled_from(["nistp256", "nistp384", "nistp521"]))
         return ["ec", curve, draw(st.integers(1, K.curve_order(curve) - 1))]
-    if cls == "RSAKey" and kind == 0 and _extra_keys:
+    if cls == "ECDSAKey" and kind in (1, 2):
+        curve = draw(st.sampled_from(["nistp256", "nistp384", "nistp521"]))
+        return ["ec", curve, draw(st.sampled_from(KM.ec_special_scalars(curve)))]
+    if cls == "RSAKey" and kind in (0, 1, 2) and _extra_keys:
         return draw(st.sampled_from(_extra_keys))
     return draw(st.sampled_from(by[cls]))
+
+
+def material_classes(keyid):
+    """Evidence classes describing the structure of the key material (computed from the reference key)."""
+    if isinstance(keyid, str):
+        out = ["key:bundled"]
+    elif keyid[0] == "ec":
+        lx, ly = KM.ec_coord_shape(ref_private(keyid).public_key())
+        d = int(keyid[2])
+        size = "tiny" if d < 65536 else ("top" if d > K.curve_order(keyid[1]) - 65536 else "random")
+        out = ["key:ec-scalar-" + size, "ec-coord:%s:x-lz%d:y-lz%d" % (keyid[1], lx, ly)]
+        if lx or ly:
+            out.append("ec-coord:short")
+    else:
+        out = ["key:rsa-generated"]
+    if key_class(keyid) != "Ed25519Key":
+        n = len(der_body(keyid))
+        out.append("%s-der:%s" % (key_class(keyid), "mod16=0" if n % 16 == 0 else ("mod8=0" if n % 8 == 0 else "partial")))
+    return out
 
 
 passphrases = st.one_of(
@@ -146,8 +243,8 @@ passphrases = st.one_of(
 
 
 @st.composite
-def cases(draw):
-    key = draw(keyids())
+def cases(draw, fixed_key=None):
+    key = fixed_key if fixed_key is not None else draw(keyids())
     prov = draw(st.sampled_from(provs_for(key)))
     other = draw(keyids())
     return {
@@ -254,6 +351,17 @@ def expect_refused(cls_name, loader, password, where):
     raise Fail("passphrase", "%s:%s:loaded-with-%s" % (cls_name, where, "none" if password is None else "wrong"), "protected key loaded with passphrase %r -> %r" % (password, key))
 
 
+def obtain(keyid, prov):
+    """get_obj; for constructed key text (written by `cryptography` / the independent PEM writer, i.e. valid
+    by construction) a loader exception is a violation of the load-back clause, not a harness error."""
+    try:
+        return get_obj(keyid, prov)
+    except Exception as e:
+        if isinstance(keyid, str) or prov == "object":
+            raise
+        raise Fail("private-load", "%s:%s:%s" % (key_class(keyid), prov, K.exc_bucket(e)), "valid key text (%s) does not load: %r" % (prov, e))
+
+
 def execute(ctx, c):
     import paramiko
 
@@ -263,16 +371,19 @@ def execute(ctx, c):
     sp = K.spec(c["key"]) if isinstance(c["key"], str) else None
     writes = cls_name != "Ed25519Key"
     protected = bool(c["pass"]) if writes else bool(sp and sp.password)
-    nontrivial = protected or c["prov"] == "file+cert" or (writes and c["umask"] != 0o077)
+    nontrivial = protected or c["prov"] == "file+cert" or c["prov"] in ENC_PROVS or (writes and c["umask"] != 0o077)
     classes = ["cls:" + cls_name, "prov:" + c["prov"], "umask:%o" % c["umask"], "pre:%s" % ("new" if c["pre"] is None else "%o" % c["pre"])]
+    classes += material_classes(c["key"])
+    if writes and c["pass"]:
+        classes.append("written-protected:" + [x for x in classes if x.startswith(cls_name + "-der:")][0])
     ctx.case(c, nontrivial, classes)
     try:
-        k = get_obj(c["key"], c["prov"])
+        k = obtain(c["key"], c["prov"])
         # a / b
         check_public(cls_name, k, ref, c["prov"])
         check_signs(cls_name, k, ref, c["prov"])
         for p2 in provs_for(c["key"]):
-            k2 = get_obj(c["key"], p2)
+            k2 = obtain(c["key"], p2)
             if not (k2 == k) or k2 != k or hash(k2) != hash(k):
                 raise Fail("equality", "%s:%s-vs-%s" % (cls_name, p2, c["prov"]), "two objects of one key are unequal or hash differently")
         if isinstance(c["key"], str) and c["key"] in CERTS:
@@ -282,7 +393,7 @@ def execute(ctx, c):
             if not (ck == k) or hash(ck) != hash(k):
                 raise Fail("equality", "%s:certdata-vs-%s" % (cls_name, c["prov"]), "object built from the certificate blob is unequal to the key / hashes differently")
             ctx.count("cert-compared")
-        o = get_obj(c["other"], c["oprov"])
+        o = obtain(c["other"], c["oprov"])
         same = ref_public(c["other"]).same(ref)
         if (o == k) != same or (k == o) != same or (o != k) == same:
             raise Fail("equality", "%s-vs-%s:%s" % (cls_name, key_class(c["other"]), "same-material" if same else "different-material"), "== says %r, reference says same material = %r" % (o == k, same))
@@ -298,6 +409,18 @@ def execute(ctx, c):
             ld = (lambda pw: cls.from_private_key_file(sp.path, pw)) if c["write_via"] == "file" else (lambda pw: cls.from_private_key(io.StringIO(sp.text), pw))
             ctx.count("bundled-refused:" + expect_refused(cls_name, ld, wp, "bundled-" + sp.fmt))
             ld(sp.password.encode() if c["right_bytes"] else sp.password)
+
+        # d': constructed protected files (independent traditional-PEM writer, every supported cipher)
+        if c["prov"] in ENC_PROVS:
+            text = prov_text(c["key"], c["prov"])
+            wp = wrong_pass(ENC_PROV_PASS, c["wrong"])
+            if c["wrong_bytes"] and wp is not None:
+                wp = wp.encode()
+            ld = lambda pw: cls.from_private_key(io.StringIO(text), pw)  # noqa: E731
+            ctx.count("constructed-refused:" + expect_refused(cls_name, ld, wp, c["prov"]))
+            back = ld(ENC_PROV_PASS.encode() if c["right_bytes"] else ENC_PROV_PASS)
+            if not (back == k) or hash(back) != hash(k):
+                raise Fail("private-roundtrip", "%s:%s:unequal" % (cls_name, c["prov"]), "protected text loads as a different key")
 
         # c / e: writers
         if writes:
@@ -379,6 +502,7 @@ def write_and_reload(ctx, c, cls_name, cls, k, ref):
 
 def run(ctx):
     ctx.set_budget(40, 700)
+    fresh_rsa_pool(ctx)
     if ctx.tier == "thorough":
         import paramiko
         from cryptography.hazmat.primitives import serialization as S
@@ -390,6 +514,15 @@ def run(ctx):
         ctx.count("generated-rsa-%d" % bits)
     ctx.assume("write_private_key* with an empty passphrase may refuse (ValueError from the serializer); nothing is asserted about that call")
     ctx.assume("process umask is changed only around the write call (single-threaded) and restored")
+    # 1. sweep: the finite set of constructed keys is enumerated completely in every run (every special scalar of
+    #    every curve, every generated RSA key); the other dimensions of each case are drawn
+    constructed = [["ec", curve, d] for curve in sorted(KM.EC_SHORT_COORD_SCALARS) for d in KM.ec_special_scalars(curve)] + list(_extra_keys)
+    if ctx.tier == "thorough":
+        constructed = constructed[ctx.worker :: ctx.nworkers] if ctx.nworkers > 1 else constructed
+    for i, key in enumerate(constructed):
+        ctx.explore(cases(fixed_key=key), lambda c: execute(ctx, c), 3, seed_offset=1000 + i)
+    ctx.count("constructed-keys-swept", len(constructed))
+    # 2. free exploration
     ctx.explore(cases(), lambda c: execute(ctx, c), ctx.scale(300, 2500))
 
 
